@@ -142,7 +142,9 @@ def filter_cases(draw, tier, flavour):
         mode = {"bad": draw(st.integers(0, len(BAD_MODES) - 1))}
     return {"kind": U["kind"], "labels": labels, "nodes_meta": nodes_meta, "weighted": weighted,
             "recs": recs, "node_criteria": node_criteria, "edge_criteria": edge_criteria,
-            "mode": mode, "keep_edges": draw(st.sampled_from([False, True]))}
+            "mode": mode, "keep_edges": draw(st.sampled_from([False, True])),
+            # the allowed values of a criterion may come in any container
+            "container": draw(st.sampled_from(["list", "list", "tuple", "set", "frozenset"]))}
 
 
 # --------------------------------------------------------------------------
@@ -377,8 +379,23 @@ def check_filter(fl, case, ctx):
     # the abstract content must be what was built (a construction problem is C01/C03/C04's
     # business, but a silent mismatch would make this oracle blame the filter)
     mode = case["mode"]
-    kwargs = {"node_criteria": dc(case["node_criteria"]), "edge_criteria": dc(case["edge_criteria"]),
+    def _contain(crit):
+        if crit is None:
+            return None
+        make = {"list": list, "tuple": tuple, "set": set, "frozenset": frozenset}[
+            case.get("container", "list")]
+        out = {}
+        for attr, allowed in crit.items():
+            try:
+                out[attr] = make(dc(allowed))
+            except TypeError:      # unhashable allowed value: keep the list
+                out[attr] = dc(allowed)
+        return out
+
+    kwargs = {"node_criteria": _contain(case["node_criteria"]),
+              "edge_criteria": _contain(case["edge_criteria"]),
               "keep_edges": case["keep_edges"]}
+    ctx.label("allowed_values_as:" + case.get("container", "list"))
     ctx.label("mode=%s" % (mode if isinstance(mode, str) else "invalid"),
               "keep_edges=%s" % case["keep_edges"],
               "criteria:" + ("both" if case["node_criteria"] is not None
